@@ -316,6 +316,9 @@ func vfRunLFUCase(c *vfLFUCase) (st vfLFUStats, sig, msg string) {
 						if p.door.Has(k) {
 							return st, "C18/lfu/reset-keeps-marks", fmt.Sprintf("first-access mark of %#x survived the aging reset", k)
 						}
+						if e, c := p.Estimate(k), p.freq.Estimate(k); e != c {
+							return st, "C18/lfu/estimate-composition", fmt.Sprintf("right after the aging reset Estimate(%#x)=%d, its halved counters say %d and no mark is set", k, e, c)
+						}
 					}
 					if p.door.Has(op.H) {
 						return st, "C18/lfu/reset-keeps-marks", fmt.Sprintf("first-access mark of %#x survived the aging reset", op.H)
@@ -338,6 +341,14 @@ func vfRunLFUCase(c *vfLFUCase) (st vfLFUStats, sig, msg string) {
 				sinceReset[op.H]++
 				for j, k := range order {
 					after := p.Estimate(k)
+					// the estimate is the counter minimum plus one iff the first-access mark is set - nothing else
+					want := p.freq.Estimate(k)
+					if p.door.Has(k) {
+						want++
+					}
+					if after != want {
+						return st, "C18/lfu/estimate-composition", fmt.Sprintf("Estimate(%#x)=%d but its counters say %d and its first-access mark is %v", k, after, p.freq.Estimate(k), p.door.Has(k))
+					}
 					if after < before[j] {
 						return st, "C18/lfu/increment-lowered", fmt.Sprintf("recording an access of %#x lowered the estimate of %#x: %d -> %d", op.H, k, before[j], after)
 					}
